@@ -231,6 +231,35 @@ func ruleC16SnapshotMode(p *Prog, r *Res, settlingOnly bool) {
 					})
 					return hit, got
 				}
+				// the re-apply written out in place: a loop over the converter registry whose body applies the invalidation
+				// to the recorded streams. With no converter registered there is nothing to re-apply, so the loop itself —
+				// its range expression, which every path into and around the body passes — counts.
+				{
+					direct := isReapply
+					loops := map[ast.Node]*types.Var{}
+					convFld := p.Field("manager", "Manager", "converters")
+					inspectShallow(comp.Body(), func(x ast.Node) bool {
+						rs, ok := x.(*ast.RangeStmt)
+						if !ok || convFld == nil || mgrField(cinfo, rs.X) != convFld {
+							return true
+						}
+						ast.Inspect(rs.Body, func(y ast.Node) bool {
+							if st, ok := y.(ast.Stmt); ok {
+								if h, v := direct(st); h {
+									loops[rs.X] = v
+								}
+							}
+							return true
+						})
+						return true
+					})
+					isReapply = func(n ast.Node) (bool, *types.Var) {
+						if v, ok := loops[n]; ok {
+							return true, v
+						}
+						return direct(n)
+					}
+				}
 				for _, pt := range cfl.Find(func(n ast.Node) bool { h, _ := isReapply(n); return h }) {
 					_, M = isReapply(cfl.node(pt))
 				}
